@@ -321,9 +321,9 @@ fn configs(thorough: bool) -> Vec<Cfg> {
                 if !thorough && capacity == 1 && (read_chunk == 1 || co == "1ms") {
                     continue;
                 }
-                v.push(Cfg { n: 2, coalescing: co.into(), read_chunk, capacity, prefill: 0, bound: b2, big: 0, events: false, write_chunk: 0, big_req: 0, all_cuts: thorough });
+                v.push(Cfg { n: 2, coalescing: co.into(), read_chunk, capacity, prefill: 0, bound: b2, big: 0, events: false, write_chunk: 0, big_req: 0, all_cuts: false });
                 // (1 ms coalescing adds a free 'advance' alternative at most steps: one bound lower in the quick tier)
-                v.push(Cfg { n: 3, coalescing: co.into(), read_chunk, capacity, prefill: 0, bound: if co == "1ms" && !thorough { b3 - 1 } else { b3 }, big: 0, events: false, write_chunk: 0, big_req: 0, all_cuts: thorough });
+                v.push(Cfg { n: 3, coalescing: co.into(), read_chunk, capacity, prefill: 0, bound: if co == "1ms" && !thorough { b3 - 1 } else { b3 }, big: 0, events: false, write_chunk: 0, big_req: 0, all_cuts: false });
             }
         }
     }
@@ -334,39 +334,37 @@ fn configs(thorough: bool) -> Vec<Cfg> {
             if !thorough && read_chunk == 4096 && big % 2 == 0 {
                 continue;
             }
-            v.push(Cfg { n: 2, coalescing: "yield".into(), read_chunk, capacity: 0, prefill: 0, bound: if thorough { 2 } else { 1 }, big, events: false, write_chunk: 0, big_req: 0, all_cuts: thorough });
+            v.push(Cfg { n: 2, coalescing: "yield".into(), read_chunk, capacity: 0, prefill: 0, bound: if thorough { 2 } else { 1 }, big, events: false, write_chunk: 0, big_req: 0, all_cuts: false });
         }
     }
-        // every header split offset (quick: at one bound lower than the families above; thorough has it everywhere)
-    if !thorough {
-        for co in ["yield", "off"] {
-            for read_chunk in [0usize, 1] {
-                v.push(Cfg { n: 2, coalescing: co.into(), read_chunk, capacity: 0, prefill: 0, bound: 2, big: 0, events: false, write_chunk: 0, big_req: 0, all_cuts: true });
-                v.push(Cfg { n: 3, coalescing: co.into(), read_chunk, capacity: 0, prefill: 0, bound: 1, big: 0, events: false, write_chunk: 0, big_req: 0, all_cuts: true });
-            }
+        // every header split offset, one deviation bound below the families above (those split after byte 1 / after the header / mid-body)
+    for co in ["yield", "off"] {
+        for read_chunk in [0usize, 1] {
+            v.push(Cfg { n: 2, coalescing: co.into(), read_chunk, capacity: 0, prefill: 0, bound: if thorough { 3 } else { 2 }, big: 0, events: false, write_chunk: 0, big_req: 0, all_cuts: true });
+            v.push(Cfg { n: 3, coalescing: co.into(), read_chunk, capacity: 0, prefill: 0, bound: if thorough { 2 } else { 1 }, big: 0, events: false, write_chunk: 0, big_req: 0, all_cuts: true });
         }
     }
     // a control connection: EVENT frames (stream -1) and a frame on stream -2 interleaved with the responses
     for co in ["yield", "off"] {
-        v.push(Cfg { n: 2, coalescing: co.into(), read_chunk: 0, capacity: 0, prefill: 0, bound: if thorough { 3 } else { 2 }, big: 0, events: true, write_chunk: 0, big_req: 0, all_cuts: thorough });
-        v.push(Cfg { n: 3, coalescing: co.into(), read_chunk: 0, capacity: 0, prefill: 0, bound: if thorough { 2 } else { 1 }, big: 0, events: true, write_chunk: 0, big_req: 0, all_cuts: thorough });
+        v.push(Cfg { n: 2, coalescing: co.into(), read_chunk: 0, capacity: 0, prefill: 0, bound: if thorough { 3 } else { 2 }, big: 0, events: true, write_chunk: 0, big_req: 0, all_cuts: false });
+        v.push(Cfg { n: 3, coalescing: co.into(), read_chunk: 0, capacity: 0, prefill: 0, bound: if thorough { 2 } else { 1 }, big: 0, events: true, write_chunk: 0, big_req: 0, all_cuts: false });
     }
     // short writes (7 bytes per write call) and a request larger than the 8 KiB write buffer
     for (write_chunk, big_req) in [(7usize, 0usize), (0, 20_000), (1000, 70_000)] {
         for co in ["yield", "off"] {
-            v.push(Cfg { n: 3, coalescing: co.into(), read_chunk: 0, capacity: 0, prefill: 0, bound: if thorough { 2 } else { 1 }, big: 0, events: false, write_chunk, big_req, all_cuts: thorough });
+            v.push(Cfg { n: 3, coalescing: co.into(), read_chunk: 0, capacity: 0, prefill: 0, bound: if thorough { 2 } else { 1 }, big: 0, events: false, write_chunk, big_req, all_cuts: false });
         }
     }
     // stream ids around 255 / 2047 / 2048 / 4095 / 4096 on the wire (the ids below are taken by pre-filled handlers): the peer
     // answers on the id it read from the frame, so an id that is not carried intact never reaches its caller
     for p in if thorough { vec![255usize, 256, 2047, 2048, 4095, 4096, 16384] } else { vec![255usize, 2047, 2048, 4095, 4096] } {
-        v.push(Cfg { n: 3, coalescing: "yield".into(), read_chunk: 0, capacity: 0, prefill: p, bound: 1, big: 0, events: false, write_chunk: 0, big_req: 0, all_cuts: thorough });
+        v.push(Cfg { n: 3, coalescing: "yield".into(), read_chunk: 0, capacity: 0, prefill: p, bound: 1, big: 0, events: false, write_chunk: 0, big_req: 0, all_cuts: false });
     }
     // exhaustion through the real writer path: the router's own map pre-filled by 32768-j real allocate calls
     for j in if thorough { vec![0usize, 1, 2] } else { vec![1usize] } {
-        v.push(Cfg { n: 2, coalescing: "yield".into(), read_chunk: 0, capacity: 0, prefill: 32768 - j, bound: if thorough { 2 } else { 1 }, big: 0, events: false, write_chunk: 0, big_req: 0, all_cuts: thorough });
+        v.push(Cfg { n: 2, coalescing: "yield".into(), read_chunk: 0, capacity: 0, prefill: 32768 - j, bound: if thorough { 2 } else { 1 }, big: 0, events: false, write_chunk: 0, big_req: 0, all_cuts: false });
         if thorough {
-            v.push(Cfg { n: 3, coalescing: "yield".into(), read_chunk: 0, capacity: 0, prefill: 32768 - j, bound: 1, big: 0, events: false, write_chunk: 0, big_req: 0, all_cuts: thorough });
+            v.push(Cfg { n: 3, coalescing: "yield".into(), read_chunk: 0, capacity: 0, prefill: 32768 - j, bound: 1, big: 0, events: false, write_chunk: 0, big_req: 0, all_cuts: false });
         }
     }
     v
